@@ -348,6 +348,7 @@ func init() {
 			{Name: "BIN-ARG-END", What: "csi.Add hands reg2bin the record's exclusive End(), not its last base (shared with C16)", Floor: 2, Run: ruleBinArgEnd},
 			{Name: "STRATEGY-BIND", What: "index.Adjacent – what every Chunks answer goes through – is the function adjacent that MERGE-STEP examines (shared with C17)", Floor: 3, Run: ruleStrategyBind},
 			{Name: "LAST-BASE", What: "internal.(*Index).Add and csi.(*Index).Add validate the record's last base, End()-1, with the predicate on 0-based positions, not the exclusive End(): a record on the last base the index can hold is accepted (shared with C16; added for a defect of the unchanged tree)", Floor: 2, Run: ruleLastBase},
+			{Name: "DEPTH-GUARD", What: "csi.(*Index).Add computes a record's bin only for an index whose depth was found at most 9: deeper schemes do not fit the 32-bit bin arithmetic and lose records silently (added for a defect of the unchanged tree, fourth hunt)", Floor: 1, Run: ruleDepthGuard},
 			{Name: "LINEAR-KEEP", What: "internal.(*Index).Add only extends the linear index: the list is never cut back or assigned in place, a longer list is built over a copy of the old one and filled from max(first tile, old length) on – a tile keeps the offset of the first record that reached it (added after eleventh-round seed C04-k)", Floor: 2, Run: ruleLinearKeep},
 			{Name: "STATS-BLIND", What: "no Chunks method (bam, internal, csi, tabix; through their callees) reads the reference statistics: a query is answered from bins and intervals alone (added after seventh-round seed C04-h: an early-out on Stats.Mapped == 0 loses references that hold only placed unmapped reads)", Floor: 4, Run: ruleStatsBlind},
 			{Name: "ARG-AGREE", What: "Add and Chunks hand the same geometry to the bin function / bin enumeration; BAI and tabix file under BinFor of the record's own interval", Floor: 3, Run: ruleArgAgree},
